@@ -245,3 +245,6 @@ VARIANTS = [
     Variant("loop-flag-rename", "trellis.py", in_function("Trellis.delete_detached", lambda s: s.replace("cleaned_some", "progress") if "cleaned_some" in s else None)),
     Variant("cleanup-logs-first", "builder.py", in_function("Builder.finalize", replace_once("            await revert_optional_steps(self.workflow, self.reporter)\n", "            logger.debug(\"cleanup starts\")\n            await revert_optional_steps(self.workflow, self.reporter)\n"))),
 ]
+
+# a sketch of the F63/F64 repair (recording through state-selecting helpers): no rule of this property may alarm on it
+VARIANTS += [shared.REPAIR_SKETCH_F63]
